@@ -267,7 +267,14 @@ def run_job(unit, job, cpath, workdir, tier):
             cmd += ['--enforce-contract', f]
         for f in job.enforce_rec:
             cmd += ['--enforce-contract-rec', f]
+        try:
+            ctext = open(cpath).read()
+        except Exception:
+            ctext = ''
         for f in job.replace:
+            # a stub that is declared but never called has no symbol in the binary (goto-instrument refuses it)
+            if ctext and len(re.findall(r'\b%s\s*\(' % re.escape(f), ctext)) <= 1:
+                continue
             cmd += ['--replace-call-with-contract', f]
         if job.loop_contracts:
             cmd += ['--apply-loop-contracts']
@@ -276,7 +283,7 @@ def run_job(unit, job, cpath, workdir, tier):
         rc, out, err, w = _run(cmd, 600)
         r.wall += w
         tries = 0
-        while rc != 0 and tries < 12:
+        while rc != 0 and tries < 80:
             # a stub that the (changed) code no longer calls does not exist in the binary: drop it and retry
             m = re.search(r"Function to replace '(\w+)' not found", err + out)
             if not m or m.group(1) not in cmd:
